@@ -52,6 +52,9 @@ def generate(seed, tier):
         case["spec"] = spec
     else:
         N = rng.randint(4, 8)
+        if mode == "model" and rng.random() < 0.02:
+            N = rng.choice([520, 640, 700])  # sampling the pairwise interactions of several hundred nodes
+            case["many_nodes"] = True
     case["N"] = N
     scale = rng.choice([0.6, 1.0, 2.0])
     case["u"] = [[round(scale * (0.1 + rng.random()), 3) for _ in range(K)] for _ in range(N)]
@@ -78,6 +81,11 @@ def generate(seed, tier):
         case.pop("block_structured", None)
         case["disassortative"] = True
     case["max_size"] = rng.randint(2, min(N, 5))
+    if case.get("many_nodes"):
+        case["max_size"] = 2
+        case["u"] = [[round(0.02 + 0.05 * rng.random(), 4) for _ in range(case["K"])] for _ in range(N)]
+        case["burn_in"], case["thin"], case["n_samples"] = 0, 0, 1
+        case.pop("disassortative", None)
     if rng.random() < 0.25:
         case["exact_dyadic"] = False  # the non-default approximate sampling of the pairwise interactions
     if mode == "sequences":
